@@ -11,14 +11,16 @@
   happens when the documents name that cause (zone ≠ valid) and an acceptance only when the
   documents do not forbid the value (zone ≠ invalid) — for udValue and keyId; and, composed
   (`gate_refusals_conform`, `simple_commands_conform`, `Proofs/Classify.lean`): for every JSON object
-  the gate's refusals, and the verdicts of every version-1 command and of the seven version-5
-  commands that carry no transaction or block, are the ones `Spec.C02.judge` prescribes.  The
-  remaining fields (v5 message, auth, blocks, brothers) are covered by the correspondence stream
-  with the oracle.
+  the gate's refusals, the verdicts of every version-1 command and of the seven version-5
+  commands that carry no transaction or block, and — through both validation stages — the verdicts
+  of version-5 `sign` (`sign_v5_conform`, `Proofs/ClassifySign.lean`) are the ones `Spec.C02.judge`
+  prescribes.  The remaining fields (blocks, brothers of advanceBlockchain / updateAncestorBlock,
+  where F-02b is a proved counterexample) are covered by the correspondence stream with the oracle.
 -/
 import PowHsm.Spec.C02
 import PowHsm.Proofs.Monad
 import PowHsm.Proofs.Classify
+import PowHsm.Proofs.ClassifySign
 namespace PowHsm
 namespace Props.C02
 open Ledger Comm Spec Spec.C02
@@ -125,6 +127,39 @@ theorem simple_commands_conform (m : Mode) (hs : Dongle.Hashes) (kvs : List (Str
   obtain ⟨href, hacc⟩ := Classify.simple_commands_classified m kvs name hg hsimple
   refine ⟨fun e he hne => ⟨(rejected_no_contact m hs kvs w).2 name e hg he, ?_⟩, hacc⟩
   exact Classify.allowed_of_refusal m _ e _ hne (href e he)
+
+/-- **`sign` of protocol version 5 is classified exactly as the documents prescribe, for every JSON
+    object** — both validation stages (`_validate_sign` in comm/protocol.py: key id, optional `auth`,
+    message shape; `_sign` in ledger/protocol.py: the hash shape, or mandatory `auth`, the transaction
+    shape and a transaction that decodes).  `Classify.signV5Verdict` is the code either stage refuses
+    with (`none`: the request goes on to the device).  A refusal carries the code of a field — key id
+    -103, message -102, auth -101 — whose value the documents do not call valid, reaches no device,
+    leaves the world untouched and satisfies the oracle; what passes both stages the documents do not
+    forbid.  (`Proofs/ClassifySign.lean`: hex strings, the three message shapes with exactly their
+    keys, the `auth` object, the transaction decoder shared with C14.) -/
+theorem sign_v5_conform (hs : Dongle.Hashes) (kvs : List (String × Json)) (w : World)
+    (hg : gate (codes .v5) kvs = .ok "sign") :
+    (∀ e, Classify.signV5Verdict kvs = some e →
+      Rejected (handleRequest .v5 hs (.obj kvs) w) w e ∧
+      allowedObs .v5 (.obj kvs) (Classify.refusalObs e w.commIssue) = true) ∧
+    (Classify.signV5Verdict kvs = none → (judge .v5 (.obj kvs)).2 = false) := by
+  obtain ⟨_, _, hmust, hmay⟩ := Classify.gate_pass .v5 kvs "sign" hg
+  refine ⟨fun e he => ?_, fun hn => ?_⟩
+  · obtain ⟨hneg, z, hmem, hz⟩ := Classify.sign_refusal_allowed kvs e he
+    obtain ⟨h1, h2, h3⟩ := Classify.sign_refusal_observed hs kvs w e hg he
+    exact ⟨⟨h1, h2, h3⟩, Classify.allowed_of_refusal .v5 _ e _ (by omega) (hmay e z hmem hz)⟩
+  · rw [hmust]
+    have := Classify.sign_pass_not_forbidden kvs hn
+    simp only [List.any_eq_false, beq_iff_eq]
+    intro cz hcz
+    exact this cz hcz
+
+/-- non-vacuity of `sign_v5_conform`: a `sign` without a message is refused with -102, one whose `auth`
+    is not an object with -101 (the first stage checks `auth` before the message) -/
+example :
+    Classify.signV5Verdict [("keyId", .str "m/44'/1'/2'/0/0")] = some (-102) ∧
+    Classify.signV5Verdict [("keyId", .str "m/44'/1'/2'/0/0"), ("auth", .null)] = some (-101) ∧
+    Classify.signV5Verdict [("keyId", .str "m/44'/1'/2'/0")] = some (-103) := by decide +kernel
 
 /-- non-vacuity: a version-5 `getPubKey` with an undocumented but well-formed path is refused with
     -103 (allowed: the documents do not call the value valid), one with a documented path is accepted -/
